@@ -6,6 +6,13 @@ macro_rules! cfg {
         let tier = $run.tier;
         $run.explore(&t::$fam::u::<$n, $z>(), &plans::arith::<$fam::U<$n>>(tier));
         $run.explore(&t::$fam::i::<$n, $z>(), &plans::arith::<$fam::I<$n>>(tier));
+        // product-landmark digits (factor pairs of 2^w - 1 and 2^w + 1, modular inverses)
+        if let Some(p) = plans::landmark_plan::<$fam::U<$n>>(tier) {
+            $run.explore(&t::$fam::u::<$n, $z>(), &p);
+        }
+        if let Some(p) = plans::landmark_plan::<$fam::I<$n>>(tier) {
+            $run.explore(&t::$fam::i::<$n, $z>(), &p);
+        }
         // closure pass (non-initial states derived by the model): light in the quick tier
         if !$run.in_replay() {
             if let Some(p) = plans::closure_plan(&t::$fam::u::<$n, $z>(), tier) {
@@ -18,8 +25,17 @@ macro_rules! cfg {
     }};
 }
 
+macro_rules! cfg_huge {
+    ($run:expr, $fam:ident, $n:literal, $z:ty) => {{
+        // the widest configurations of the quantifier (8192 bits): dense and sparse values, small plan
+        $run.explore(&t::$fam::u::<$n, $z>(), &plans::hugeify(plans::arith::<$fam::U<$n>>(Tier::Quick), usize::MAX, 16));
+        $run.explore(&t::$fam::i::<$n, $z>(), &plans::hugeify(plans::arith::<$fam::I<$n>>(Tier::Quick), usize::MAX, 16));
+    }};
+}
+
 fn main() {
     let mut run = Run::from_args("C02", "c02");
     vcore::core_configs!(cfg, run);
+    vcore::huge_configs!(cfg_huge, run);
     std::process::exit(run.finish());
 }
